@@ -422,4 +422,36 @@ theorem suffix_sources {suf : String} (hs : suf.length ≠ 0) {frame : List Name
   rw [List.contains_iff_mem, List.mem_map]
   exact ⟨c ++ suf, by rw [detProj_toList]; exact parent_mem_union hreq, sliceSuffix_append suf c hs⟩
 
+/-! ### string cancellation, Concat -/
+
+theorem append_left_inj' {pre a b : String} (h : pre ++ a = pre ++ b) : a = b := by
+  have := congrArg String.toList h
+  rw [String.toList_append, String.toList_append] at this
+  have := List.append_cancel_left this
+  rw [← String.ofList_toList (s := a), ← String.ofList_toList (s := b), this]
+
+theorem append_right_inj' {suf a b : String} (h : a ++ suf = b ++ suf) : a = b := by
+  have := congrArg String.toList h
+  rw [String.toList_append, String.toList_append] at this
+  have := List.append_cancel_right this
+  rw [← String.ofList_toList (s := a), ← String.ofList_toList (s := b), this]
+
+theorem concat_spec {axis1 inner : Bool} {frames : List (List Name)} {p : Parent} {deps : List Dep} {rw : Rw}
+    (h : concat axis1 inner frames p deps = some rw) :
+    rw.childs = frames.map (concatChild (detProj p deps []).toList) ∧
+    rw.dropped = frames.map (concatDropped axis1 (detProj p deps []).toList) := by
+  unfold concat at h
+  simp only at h
+  split at h
+  · cases h
+  · cases h; exact ⟨rfl, rfl⟩
+
+theorem concatChild_cases (columns f : List Name) :
+    concatChild columns f = none ∨ concatChild columns f = some (.many (f.filter (columns.contains ·))) := by
+  unfold concatChild
+  simp only
+  split
+  · exact Or.inl rfl
+  · exact Or.inr rfl
+
 end Dx.Cols
